@@ -128,6 +128,13 @@ class Abort(Exception):
     pass
 
 
+class Fault(object):
+    """Released into a storage gate: the storage operation fails (once) with an I/O error instead of being carried out."""
+
+
+FAULTABLE = ('set_recipients_delivered', 'increment_attempts', 'set_timestamp')
+
+
 # neighbours differ in exactly one component: enhanced status code only, reply code only, text only
 # (reply text is UTF-8 on the wire: the last entry of each table is not ASCII)
 FAIL_REPLIES_PERM = [('550', '5.1.1 rejected'), ('550', '5.7.1 rejected'), ('554', '5.7.1 rejected'), ('550', '5.1.1 Empf\u00e4nger unbekannt')]
@@ -307,6 +314,7 @@ class Engine(object):
         self.dead = False
         self.exhausted_choice = False
         self.jam_seen = None
+        self.faulted = False
         self.inner = self._make_store()
         self._build_queue()
 
@@ -377,6 +385,8 @@ class Engine(object):
 
     # -- plumbing ---------------------------------------------------------------
     def fail(self, owner, clause, msg):
+        if self.faulted and owner != 'C03':
+            return          # after an injected storage failure only C03's clauses are judged (the others assume a working store)
         self.note_pool_jam()
         if self.jam_seen:
             return          # reported once, as the bounded-pool deadlock itself
@@ -456,6 +466,8 @@ class Engine(object):
         out = g.ar.get()
         if isinstance(out, Abort):
             raise gevent.GreenletExit()
+        if isinstance(out, Fault):
+            raise IOError(28, 'injected storage failure in %s' % kind)
         return out
 
     def settle(self):
@@ -685,6 +697,15 @@ class Engine(object):
                 self.release(g, spec)
             else:
                 self.exhausted_choice = True
+        elif kind == 'fault':
+            # one of the storage operations that record the outcome of an attempt fails with an I/O error
+            cands = [g for g in self.pending if g.kind in FAULTABLE]
+            if cands:
+                g = cands[int(action[1]) % len(cands)]
+                self.pending.remove(g)
+                self.faulted = True
+                self.labels.add('storage-fault')
+                g.ar.set(Fault())
         elif kind == 'answer':
             self.do_serve(action[1] if len(action) > 1 else None, follow=False)
         elif kind == 'storage':
@@ -781,7 +802,7 @@ class Engine(object):
         self.labels.add('announce')
 
     def do_restart(self):
-        if [g for g in self.pending if g.kind != 'wait'] or self.in_flight:
+        if [g for g in self.pending if g.kind != 'wait'] or self.in_flight or self.faulted:
             return
         if any(not t.dead for t in self.flush_threads) or any(not g.dead for _, g in self.enqueue_threads):
             return
